@@ -500,6 +500,18 @@ impl Query {
     pub fn normalize(
         &self,
     ) -> Result<(NormalFormQuery, Option<NormalFormQuery>, Vec<ResultColumn>), QueryError> {
+        // A sort key that references no column and contains no aggregate has the same value for every row and cannot
+        // influence the order. Planning it would yield a scalar ranking of length 1, truncating the result to one row.
+        let order_by: Vec<(Expr, bool)> = self
+            .order_by
+            .iter()
+            .filter(|(expr, _)| {
+                let mut colnames = HashSet::new();
+                expr.add_colnames(&mut colnames);
+                !(colnames.is_empty() && Query::ensure_no_aggregates(expr).is_ok())
+            })
+            .cloned()
+            .collect();
         let mut final_projection = Vec::<ColumnInfo>::new();
         let mut select = Vec::<ColumnInfo>::new();
         let mut aggregate = Vec::new();
@@ -538,11 +550,11 @@ impl Query {
         let nontrivial_aggregate_expression = final_projection
             .iter()
             .any(|col_info| !matches!(col_info.expr, Expr::ColName(_)));
-        let sort_after_aggregation = !aggregate.is_empty() && !self.order_by.is_empty();
+        let sort_after_aggregation = !aggregate.is_empty() && !order_by.is_empty();
         let require_final_pass = sort_after_aggregation || nontrivial_aggregate_expression;
         Ok(if require_final_pass {
             let mut final_order_by = Vec::new();
-            for (expr, desc) in &self.order_by {
+            for (expr, desc) in &order_by {
                 let (full_expr, aggregates) =
                     Query::extract_aggregators(expr, &mut aggregate_colnames, "INTERMEDIARY_COL")?;
                 if aggregates.is_empty() {
@@ -585,7 +597,7 @@ impl Query {
                     projection: select,
                     aggregate,
                     filter: self.filter.clone(),
-                    order_by: self.order_by.clone(),
+                    order_by,
                     limit: self.limit.clone(),
                 },
                 None,
